@@ -61,7 +61,10 @@ def _capture_build(job, wbranches):
         tips.append({'branch': w.name, 'sha': sha,
                      'status': job.project_repo.get_build_status(sha, key) if key else None})
     return {'key': key or '', 'bypass_settings': bool(job.settings.get('bypass_build_status')),
-            'bypass_author': bool(job.author_bypass.get('bypass_build_status', False)), 'tips': tips}
+            'bypass_author': bool(job.author_bypass.get('bypass_build_status', False)), 'tips': tips,
+            # who could have switched the option on: the comments of the pull request and the admins
+            'comments': [(str(c.author), str(c.text)) for c in job.pull_request.comments],
+            'admins': [str(a) for a in job.settings.admins], 'author': str(job.pull_request.author)}
 
 
 GATE_CAPTURE = {
